@@ -37,25 +37,33 @@
       and contains no byte that can start a list item (`-`, `*`, `+`, digits; `C08Class`): the block phase on `D` ends
       normally (`GM.Props.Blocks.no_panic`), so does the block phase on `quotePrefix D`, the two final node stores are
       related, and the original store has a Document without lines that is nobody's child and no List / ListItem node;
-    * `quote_prefix_simulation_class` (`…_partial`, `…_checked`) — for the same class, under ONE remaining decidable
-      assumption about the ORIGINAL run (`SegsNE`: no line / info / closure segment it stores is empty; C05(c)-like;
-      `GM.Blocks.quoteHypB` evaluates it, the driver does so for every source of the class in the `blocks`
-      correspondence): `QuotePrefixSimulation D` holds — the tree of `quotePrefix D` is
-      Document[Blockquote[tree of D, segments moved]].
+    * `quote_prefix_simulation_class` — for the same class, UNCONDITIONALLY: `QuotePrefixSimulation D` holds — the tree
+      of `quotePrefix D` is Document[Blockquote[tree of D, segments moved]]. `original_run_well_shaped`: what the earlier
+      versions assumed about the original run (no empty line / info / closure segment, …) is a theorem: for raw blocks
+      and info / closure segments it is carried by the relation (`NodeRel.rawNE`, `infoNE`, `closNE`; the driver knows
+      that paragraph / setext blocks have nodes that are not raw, `AInv.pk`, so the trimming `Close` functions never
+      touch a raw block), for all other blocks it is `GM.Props.Wf0.inline_segments_nonempty` (package wf0).
 
-  What is NOT proved (`QuotePrefixSimulationAll` below is the full statement): `SegsNE` for the original run (an empty
-  segment standing exactly behind the line feed of its line would be moved by the markers of the wrong line; needs
-  "paragraph lines are never blank" through paragraphParser.Close's trimming, with the parser/kind consistency of the
-  open blocks); documents with list items (listParser.Close reads the blank-line flags; the relation does not cover
-  them, and list item Continue needs the invariant "the parent list just answered Continue"); documents whose last
-  line has no `\n`; the inline phase and the renderer (C08 on HTML is SEARCHED by component `quote`).
+    * `quote_prefix_simulation_nofinalnl` — the same for sources whose last line has no line feed (`C08ClassW`: not
+      empty, last byte not a space);
+    * `quote_prefix_simulation_noitems` / `quote_prefix_simulation_nolist` — the same for every tab- and CR-free source
+      that does not end with a space and in which NO POSITION STARTS A LIST ITEM (`NoItem`: nowhere a bullet or a number
+      with `.` / `)` followed by white space or the end): digits, hyphens, `*`, `+` are allowed; the list parsers are
+      tried and decline in both runs.
+
+  What is NOT proved (`QuotePrefixSimulationAll` below is the full statement): documents with list items
+  (listParser.Close reads the blank-line flags; the relation does not cover them, and list item Continue needs the
+  invariant "the parent list just answered Continue"); a last line without `\n` that ends with a space (there
+  `fencedCodeBlockParser.Continue` calls `Advance(-1)` on a rest of line of spaces); the inline phase and the renderer
+  (C08 on HTML is SEARCHED by component `quote`).
   Helper lemmas: GM/Proof/LineRec.lean, GM/Proof/QuoteSim*.lean (unary facts about the original run:
-  QuoteSimInv.lean, QuoteSimInvP.lean, QuoteSimOpens.lean).
+  QuoteSimInv.lean, QuoteSimInvP.lean, QuoteSimInvK.lean, QuoteSimOpens.lean), GM/Proof/BlocksOrd*.lean (wf0).
 -/
 import GM.Model.LineRec
 import GM.Proof.LineRec
 import GM.Proof.QuoteSimTop
 import GM.Proof.QuoteSimHypB
+import GM.Proof.QuoteSimListClose
 import GM.Props.Blocks
 
 namespace GM.Props.C08
@@ -194,41 +202,60 @@ theorem quote_step_open (src : Bytes) (bp : BP) : OpenSim src bp := by
   | html => exact htmlOpen_sim src
   | paragraph => exact paragraphOpen_sim src
 
-/-- **One line step, `Continue`.** The same for `Continue` (same answer in both runs) of eight parsers from all
-    related states; for fenced code blocks when the remembered fence indent is not negative and the rest of the line
-    has a byte that is not a space (it fails only for a last line without `\n` consisting of exactly the fence's
-    indentation, where goldmark calls `Advance(-1)`); for list items when there is a current line and the parent
-    list's offsets are as `listParser.Continue` leaves them (`ListItemContPre`). -/
+/-- **One line step, `Continue`.** The same for `Continue` (same answer in both runs) of six parsers from all
+    related states; for the code block and the HTML block parser when there is a current line (`p < src.length`: on an
+    exhausted reader they would store an empty segment, which the relation excludes for raw blocks — `NodeRel.rawNE`,
+    `closNE`; the driver only calls `Continue` on a line); for fenced code blocks when the remembered fence indent is not
+    negative and the rest of the line has a byte that is not a space (it fails only for a last line without `\n`
+    consisting of exactly the fence's indentation, where goldmark calls `Advance(-1)`); for list items when there is a
+    current line and the parent list's offsets are as `listParser.Continue` leaves them (`ListItemContPre`). -/
 theorem quote_step_continue (src : Bytes) :
-    (∀ bp, bp ≠ .fenced → bp ≠ .listItem → ContinueSim src bp) ∧
+    (∀ bp, bp ≠ .fenced → bp ≠ .listItem → bp ≠ .code → bp ≠ .html → ContinueSim src bp) ∧
+    (∀ bp, bp = .code ∨ bp = .html → ∀ k ls p node sA sB, SR src k ls p sA sB → p < src.length →
+      S2 (fun a b sA' sB' => b = a ∧ ∃ p', p ≤ p' ∧ SR src k ls p' sA' sB')
+        (bpContinue bp node sA) (bpContinue bp (node + 1) sB)) ∧
     (∀ k ls p node sA sB, SR src k ls p sA sB → FenceOK sA → (∃ c ∈ (viewA src ls p).getD [], c ≠ 32) →
       S2 (fun a b sA' sB' => b = a ∧ ∃ p', p ≤ p' ∧ SR src k ls p' sA' sB')
         (bpContinue .fenced node sA) (bpContinue .fenced (node + 1) sB)) ∧
     (∀ k ls p node sA sB, SR src k ls p sA sB → p < src.length → ListItemContPre src ls p node sA →
       S2 (fun a b sA' sB' => b = a ∧ ∃ p', p ≤ p' ∧ SR src k ls p' sA' sB')
         (bpContinue .listItem node sA) (bpContinue .listItem (node + 1) sB)) := by
-  refine ⟨fun bp h1 h2 => ?_, fencedContinue_sim' src, listItemContinue_sim' src⟩
-  cases bp with
-  | setext => exact setextContinue_sim src
-  | thematic => exact thematicContinue_sim src
-  | list => exact listContinue_sim src
-  | listItem => exact absurd rfl h2
-  | code => exact codeContinue_sim src
-  | atx => exact atxContinue_sim src
-  | fenced => exact absurd rfl h1
-  | blockquote => exact blockquoteContinue_sim src
-  | html => exact htmlContinue_sim src
-  | paragraph => exact paragraphContinue_sim src
+  refine ⟨fun bp h1 h2 h3 h4 => ?_, fun bp hbp => ?_, fencedContinue_sim' src, listItemContinue_sim' src⟩
+  · cases bp with
+    | setext => exact setextContinue_sim src
+    | thematic => exact thematicContinue_sim src
+    | list => exact listContinue_sim src
+    | listItem => exact absurd rfl h2
+    | code => exact absurd rfl h3
+    | atx => exact atxContinue_sim src
+    | fenced => exact absurd rfl h1
+    | blockquote => exact blockquoteContinue_sim src
+    | html => exact absurd rfl h4
+    | paragraph => exact paragraphContinue_sim src
+  · rcases hbp with rfl | rfl
+    · exact codeContinue_sim' src
+    · exact htmlContinue_sim' src
 
-/-- **One line step, `Close`.** `Close` of every parser but the list parser is simulated (paragraph: the trimmed
-    lines stay the same lines moved; code block: the same trailing blank lines are dropped; setext heading: when
-    its node is not the Document and the temporary-paragraph key does not point to the Document). NOT covered:
-    `listParser.Close`, which reads `HasBlankPreviousLines`. -/
+/-- **One line step, `Close`.** `Close` of every parser but the list parser is simulated (code block: the same trailing
+    blank lines are dropped; paragraph: the trimmed lines stay the same lines moved — on a node that is not raw, because
+    the relation keeps "no empty line segment" for raw blocks and trimming could empty a blank code line; setext
+    heading: when its node is not the Document and not raw and the temporary-paragraph key does not point to the
+    Document). The driver supplies the side conditions: it carries "blocks opened by the paragraph / setext parser have
+    nodes that are not raw" (`AInv.pk`). `listParser.Close`, which reads `HasBlankPreviousLines`: when the flags it
+    reads agree in the two runs (`FlagsOK`: the own flag of every item but the first, the flags of every item's children
+    but the first) — then `IsTight` is the same and the same paragraphs become text blocks. That these flags agree on
+    reachable states is NOT proved (it is what whole documents with lists still need). -/
 theorem quote_step_close (src : Bytes) :
-    (∀ bp, bp ≠ .list → bp ≠ .setext → CloseSim src bp) ∧
+    (∀ bp, bp ≠ .list → bp ≠ .setext → bp ≠ .paragraph → CloseSim src bp) ∧
+    (∀ k ls p node sA sB, SR src k ls p sA sB →
+      FlagsOK sA.nodes sB.nodes (sA.nodes.getD node default).children true →
+      S2 (fun _ _ sA' sB' => SR src k ls p sA' sB') (bpClose .list node sA) (bpClose .list (node + 1) sB)) ∧
+    (∀ k ls p node sA sB, SR src k ls p sA sB → rawK (sA.nodes.getD node default).kind = false →
+      S2 (fun _ _ sA' sB' => SR src k ls p sA' sB') (bpClose .paragraph node sA) (bpClose .paragraph (node + 1) sB)) ∧
     (∀ k ls p node sA sB, SR src k ls p sA sB → node ≠ 0 → sA.pc.tmpPara ≠ some 0 →
+      rawK (sA.nodes.getD node default).kind = false →
       S2 (fun _ _ sA' sB' => SR src k ls p sA' sB') (bpClose .setext node sA) (bpClose .setext (node + 1) sB)) := by
-  refine ⟨fun bp h1 h2 => ?_, setextClose_sim' src⟩
+  refine ⟨fun bp h1 h2 h3 => ?_, listClose_sim' src, paragraphClose_sim' src, setextClose_sim' src⟩
   cases bp with
   | setext => exact absurd rfl h2
   | thematic => exact thematicClose_sim src
@@ -239,7 +266,7 @@ theorem quote_step_close (src : Bytes) :
   | fenced => exact fencedClose_sim src
   | blockquote => exact blockquoteClose_sim src
   | html => exact htmlClose_sim src
-  | paragraph => exact paragraphClose_sim src
+  | paragraph => exact absurd rfl h3
 
 /-- **The driver, `openBlocks`.** For every set `al` of parsers whose steps are simulated (`PS`) and that covers the
     parsers a line of `src` can trigger (`TrigOK`), with the unary facts `Frames` about run A (all proved:
@@ -247,27 +274,27 @@ theorem quote_step_close (src : Bytes) :
     ending with `\n`): `openBlocks parent` in A and `openBlocks (parent+1)` in B — the whole `goto retry` loop,
     including the RequireParagraph path, closing a detached last block and the contract monitor, whose measure
     differs by a constant of the line — give the same result and end in related states. -/
-theorem quote_driver_open_blocks {src : Bytes} {al : BP → Bool} (ps : PS src al) (fr : Frames al) (ns : NS src)
+theorem quote_driver_open_blocks {src : Bytes} {al : BP → Bool} (ps : PS src al) (fr : Frames al) (ot : OT src) (ns : NS src)
     (tr : TrigOK src al) (bA bB : Bool) (q : Nat) {k ls p : Nat} {sA sB : St} (h : DRL src al k ls p sA sB) :
     S2 (fun a b sA' sB' => b = a ∧ ∃ p', DR src al k ls p' sA' sB') (openBlocks q bA sA) (openBlocks (q + 1) bB sB) :=
-  S2.mono (openBlocks_sim ps fr (ot_all src) ns tr bA bB q h) (fun _ _ _ _ hh => ⟨hh.1, hh.2.1⟩)
+  S2.mono (openBlocks_sim ps fr ot ns tr bA bB q h) (fun _ _ _ _ hh => ⟨hh.1, hh.2.1⟩)
 
 /-- **The driver, one line.** The loop of parseBlocks over the opened blocks (parser.go:1081-1123) — A at levels
     `i, i+1, …`, B one level deeper, B's `openedBlocks` being A's with the Blockquote in front — ends both in
     `next` with related states or both at the end of the source with related node stores. -/
-theorem quote_driver_line {src : Bytes} {al : BP → Bool} (ps : PS src al) (fr : Frames al) (ns : NS src)
+theorem quote_driver_line {src : Bytes} {al : BP → Bool} (ps : PS src al) (fr : Frames al) (ot : OT src) (ns : NS src)
     (tr : TrigOK src al) (ob : List Block) (L : Int) (rest : List Block) (hsub : ∀ b ∈ rest, b ∈ ob) (i : Int)
     (hi : 0 ≤ i) (stA stB : List LineStat) {k ls p : Nat} {sA sB : St} (h : DR src al k ls p sA sB)
     (hop : sA.pc.opened = ob) (hL : L = (ob.length : Int) - 1) :
     S2 (LLRel src al k ls) (lineLoop 0 ob L rest i stA sA)
       (lineLoop 0 (bqBlock :: ob.map shB) (L + 1) (rest.map shB) (i + 1) stB sB) :=
-  lineLoop_sim ps fr (ot_all src) ns tr ob L rest hsub i hi stA stB h hop hL
+  lineLoop_sim ps fr ot ns tr ob L rest hsub i hi stA stB h hop hL
 
 /-- **The driver, `closeBlocks`.** `closeBlocks(from, to)` in A and `closeBlocks(from+1, to+1)` in B. -/
 theorem quote_driver_close_blocks {src : Bytes} {al : BP → Bool} (ps : PS src al) (fr : Frames al) {k ls p : Nat}
     {sA sB : St} (h : DR src al k ls p sA sB) (frm to : Int) :
     S2 (fun _ _ sA' sB' => DR src al k ls p sA' sB') (closeBlocks frm to sA) (closeBlocks (frm + 1) (to + 1) sB) :=
-  closeBlocks_sim ps fr h frm to
+  S2.mono (closeBlocks_sim ps fr h frm to) (fun _ _ _ _ hh => hh.1)
 
 /-- **A line that is not blank always opens a block** (the fact that makes the original run read every line; it was
     an assumption — `ReadToEnd` — of the whole-run theorem before). For every tab-free source in which every position
@@ -277,11 +304,11 @@ theorem quote_driver_close_blocks {src : Bytes} {al : BP → Bool} (ps : PS src 
     declining `Open` leaves the reader where it was, the paragraph parser opens on such a line indented by at most
     three columns, the code block parser on one indented by more. (The two runs still answer the same and end in
     related states: `quote_driver_open_blocks`.) -/
-theorem nonblank_line_opens_block {src : Bytes} {al : BP → Bool} (ps : PS src al) (fr : Frames al) (ns : NS src)
+theorem nonblank_line_opens_block {src : Bytes} {al : BP → Bool} (ps : PS src al) (fr : Frames al) (ot : OT src) (ns : NS src)
     (tr : TrigOK src al) (bA bB : Bool) (q : Nat) {k ls p : Nat} {sA sB : St} (h : DRL src al k ls p sA sB)
     (ho : sA.pc.opened = []) (hnb : isBlank ((viewA src ls p).getD []) = false) (a : OpenResult) (sA' : St)
     (hA : openBlocks q bA sA = .ok (a, sA')) : a = .newBlocksOpened := by
-  obtain ⟨_, _, _, _, _, hh⟩ := openBlocks_sim ps fr (ot_all src) ns tr bA bB q h a sA' hA
+  obtain ⟨_, _, _, _, _, hh⟩ := openBlocks_sim ps fr ot ns tr bA bB q h a sA' hA
   exact hh ho hnb
 
 /-- **Whole runs.** For every source without tab and CR that ends with a line feed and has no byte that can start a
@@ -294,26 +321,77 @@ theorem quote_prefix_run {src : Bytes} (hc : C08Class src) :
     ∃ sA sB, GM.Blocks.run src = .ok sA ∧ GM.Blocks.run (quotePrefix src) = .ok sB ∧
       StoreRel src sA.nodes sB.nodes ∧ UStore sA.nodes := by
   obtain ⟨sA, hA⟩ := GM.Props.Blocks.no_panic src
-  obtain ⟨sB, hB, hn, hu⟩ := run_sim hc hA
+  obtain ⟨sB, hB, hn, hu⟩ := run_sim hc.wide.wider hA
   exact ⟨sA, sB, hA, hB, hn, hu⟩
 
-/-- **`QuotePrefixSimulation` for the class** (`GM.Props.Blocks.QuotePrefixSimulation`, the tree-level statement of
-    C08). For every source of `C08Class`: if no line / info / closure segment stored by the ORIGINAL run is empty
-    (`SegsNE`, a decidable fact about the run on `D` alone — the one remaining assumption; C05(c)-like, it holds on
-    every source evaluated), the block tree of the prefixed source is Document[Blockquote[children of the original
-    Document, every segment moved by `shiftSeg`]], all printed fields equal. Proved and no longer assumed: the
-    original run ends normally (`no_panic`), reads every line (`nonblank_line_opens_block`), leaves the Document
-    without lines and nobody's child, and builds no List / ListItem node (`quote_prefix_run`). -/
-theorem quote_prefix_simulation_class {src : Bytes} (hc : C08Class src)
-    (hne : ∀ sA, GM.Blocks.run src = .ok sA → SegsNE sA) : GM.Props.Blocks.QuotePrefixSimulation src := by
+/-- **`QuotePrefixSimulation` for the class — UNCONDITIONAL** (`GM.Props.Blocks.QuotePrefixSimulation`, the tree-level
+    statement of C08). For every source of `C08Class` (no tab, no CR, ends with a line feed, none of `- * + 0-9`): the
+    block tree of the prefixed source is Document[Blockquote[children of the original Document, every segment moved by
+    `shiftSeg`]], all printed fields equal. Nothing about the original run is assumed any more: it ends normally
+    (`no_panic`), reads every line (`nonblank_line_opens_block`), leaves the Document without lines and nobody's child,
+    builds no List / ListItem node (`quote_prefix_run`), and stores no empty segment (`original_run_well_shaped`: raw
+    blocks, info and closure segments through the simulation — `NodeRel.rawNE / infoNE / closNE` —, all other blocks by
+    `GM.Props.Wf0.inline_segments_nonempty` of package wf0). -/
+theorem quote_prefix_simulation_class {src : Bytes} (hc : C08Class src) : GM.Props.Blocks.QuotePrefixSimulation src := by
   obtain ⟨sA, hA⟩ := GM.Props.Blocks.no_panic src
-  exact quoteSim_of_class hc hA (hne sA hA)
+  exact quoteSim_of_class hc.wide.wider hA
 
-/-- the same with the final state named (the form of the earlier `…_partial` theorem; its hypotheses "the run ends
-    normally / has read all lines / Document without lines / no list node / node 0 nobody's child" are gone) -/
-theorem quote_prefix_simulation_partial {src : Bytes} (hc : C08Class src) {sA : St} (hA : GM.Blocks.run src = .ok sA)
-    (hne : SegsNE sA) : GM.Props.Blocks.QuotePrefixSimulation src :=
-  quoteSim_of_class hc hA hne
+/-- **The same without the final line feed** (`C08ClassW`: no tab, no CR, none of `- * + 0-9`, not empty, and the last
+    byte is not a space — it may or may not be a line feed): `QuotePrefixSimulation D`, unconditionally. What the last
+    line without `\n` needed: the parser/kind consistency of the open blocks (`AInv.pk`) makes `openBlocks`' exit
+    `continuable:` call `paragraphParser.Continue` — also at the end of the source, where the other `Continue`s are not
+    simulated (`HC`, `toContinuable_sim`); `AdvanceLine` from behind the last line (`advanceLine_LS`); blank lines still
+    end with `\n` (`blank_shape_w`). Excluded: a last line without `\n` that ends with a space — there
+    `fencedCodeBlockParser.Continue` can see a rest of line of spaces only and calls `Advance(-1)`. -/
+theorem quote_prefix_simulation_nofinalnl {src : Bytes} (hc : C08ClassW src) :
+    GM.Props.Blocks.QuotePrefixSimulation src := by
+  obtain ⟨sA, hA⟩ := GM.Props.Blocks.no_panic src
+  exact quoteSim_of_class hc.wider hA
+
+/-- **Documents without list items** (`C08ClassL`: no tab, no CR, not empty, last byte not a space, and NO POSITION OF
+    THE SOURCE STARTS A LIST ITEM — `NoItem`: nowhere is a bullet `-` `*` `+`, or a number of at most nine digits with `.`
+    or `)`, followed by a space, a tab, a line end or the end of the source; digits, hyphens, `*emphasis*`, `+1` … are
+    allowed): `QuotePrefixSimulation D`, unconditionally. The two list parsers are tried on such documents (the trigger
+    table of parser.go:842-850 is the full one); their `Open` is simulated and declines in both runs
+    (`listOpen_declines`: `matchesListItem` on the rest of the line; `listItemOpen_declines`: the parent is no List), so
+    no List is ever opened and `listParser.Close` / the blank-line flags are never needed. -/
+theorem quote_prefix_simulation_noitems {src : Bytes} (hc : C08ClassL src) :
+    GM.Props.Blocks.QuotePrefixSimulation src := by
+  obtain ⟨sA, hA⟩ := GM.Props.Blocks.no_panic src
+  exact quoteSim_of_class hc hA
+
+/-- the same with the provisos spelled out, the empty document included (for which the statement holds vacuously) -/
+theorem quote_prefix_simulation_nolist (src : Bytes) (htf : ∀ c ∈ src, c ≠ 9) (hcr : ∀ c ∈ src, c ≠ 13)
+    (hno : NoItem src) (hl : ∀ c, src.getLast? = some c → c ≠ 32) : GM.Props.Blocks.QuotePrefixSimulation src := by
+  by_cases he : src = []
+  · subst he
+    intro e g h
+    have : quoteSimPair [] = none := rfl
+    rw [this] at h
+    cases h
+  · exact quote_prefix_simulation_noitems ⟨htf, hcr, he, hl, hno⟩
+
+/-- whole runs for the wider class: both block phases end normally, the stores are related, the original store is
+    well shaped -/
+theorem quote_prefix_run_nofinalnl {src : Bytes} (hc : C08ClassW src) :
+    ∃ sA sB, GM.Blocks.run src = .ok sA ∧ GM.Blocks.run (quotePrefix src) = .ok sB ∧
+      StoreRel src sA.nodes sB.nodes ∧ WellShaped sA := by
+  obtain ⟨sA, hA⟩ := GM.Props.Blocks.no_panic src
+  obtain ⟨sB, hB, hn, hu⟩ := run_sim hc.wider hA
+  exact ⟨sA, sB, hA, hB, hn, wellShaped_of hu (segsNE_of_rel hA hn)⟩
+
+/-- the name of the earlier versions (`partial` now only refers to the class of sources) -/
+theorem quote_prefix_simulation_partial {src : Bytes} (hc : C08Class src) : GM.Props.Blocks.QuotePrefixSimulation src :=
+  quote_prefix_simulation_class hc
+
+/-- **The former assumptions about the original run are theorems**: for every source of the class the final state of
+    the original run is `WellShaped` — the Document has no lines, no List / ListItem node, no empty line / info /
+    closure segment, node 0 is nobody's child. (The driver oracle `blocks quotesimhyp` evaluates exactly this, and
+    "all lines read"; it is kept as a regression oracle of the model.) -/
+theorem original_run_well_shaped {src : Bytes} (hc : C08Class src) {sA : St} (hA : GM.Blocks.run src = .ok sA) :
+    WellShaped sA := by
+  obtain ⟨sB, _, hn, hu⟩ := run_sim hc.wide.wider hA
+  exact wellShaped_of hu (segsNE_of_rel hA hn)
 
 /-- the same, from the executable test `GM.Blocks.quoteHypB` (GM/Spec/QuoteHyp.lean: the class and the facts about
     the original run as one Bool — it still evaluates ALL the former assumptions, a superset of `SegsNE`; the driver
@@ -324,14 +402,12 @@ theorem quote_prefix_simulation_checked {src : Bytes} (h : quoteHypB src = true)
 
 /-- **The full statement of C08 on block trees — NOT PROVED.** `QuotePrefixSimulation D` for every tab- and CR-free,
     non-blank `D` (for other `D` it holds vacuously: `quoteSimPair` answers `none`). Proved: the instance
-    `quote_prefix_simulation_class`. Missing, in this order of size: (1) `SegsNE` — no stored segment of the original
-    run is empty (paragraph lines are never blank, so paragraphParser.Close's trimming leaves them non-empty; every
-    other stored segment contains the rest of a line up to its line feed) — the last assumption about the original run;
-    (2) a last line without `\n` (fenced code and list item `Continue` call `Advance(-1)` there; `toContinuable` at
-    the end of the source needs the parser/kind consistency of the open blocks); (3) list items: the
-    `HasBlankPreviousLines` flags of list items and of children of list items must be related (they are equal,
-    all 516k evaluated cases) through the blank-line statistics of parseBlocks, for `listParser.Close`, and
-    `listItemParser.Continue` needs "the parent list's Continue just answered Continue" (`ListItemContPre`). -/
+    `quote_prefix_simulation_class`, `quote_prefix_simulation_nofinalnl` (unconditional for their classes). Missing:
+    (1) list items: the `HasBlankPreviousLines` flags of list items and of children of list items must be related (they
+    are equal, all 516k evaluated cases) through the blank-line statistics of parseBlocks, for `listParser.Close`, and
+    `listItemParser.Continue` needs "the parent list's Continue just answered Continue" (`ListItemContPre`); (2) a last
+    line without `\n` that ends with a space (`Advance(-1)` in `fencedCodeBlockParser.Continue`; the empty segment it
+    stores needs the `lineNo` form of `SegRel`). -/
 def QuotePrefixSimulationAll : Prop :=
   ∀ src : Bytes, GM.Props.Blocks.QuotePrefixSimulation src
 
@@ -357,6 +433,21 @@ example : (match GM.Blocks.run (strBytes "a\n===\n\n~~~x\n  \ncode\n~~~\n> q\n> 
 example : ∃ sA sB, GM.Blocks.run (strBytes "a\n\n> q\n") = .ok sA ∧ GM.Blocks.run (quotePrefix (strBytes "a\n\n> q\n")) = .ok sB ∧
     StoreRel (strBytes "a\n\n> q\n") sA.nodes sB.nodes ∧ UStore sA.nodes :=
   quote_prefix_run (by decide +kernel)
+-- the unconditional theorem applied to it
+example : GM.Props.Blocks.QuotePrefixSimulation
+    (strBytes "a\n===\n\n~~~x\n  \ncode\n~~~\n> q\n> > r\n\n<div>\nh\n</div>\n\n    ind\n___\n# t\n") :=
+  quote_prefix_simulation_class (by decide +kernel)
+-- the wider class: no final line feed (fenced code block open at the end, paragraph in a quote, heading)
+example : GM.Props.Blocks.QuotePrefixSimulation (strBytes "# t\n> q\nlazy\n\n~~~\ncode") :=
+  quote_prefix_simulation_nofinalnl (by decide +kernel)
+example : GM.Blocks.quoteSim (strBytes "# t\n> q\nlazy\n\n~~~\ncode") = "ok" := by decide +kernel
+example : ¬ C08ClassW (strBytes "~~~\n  ") := by decide +kernel
+-- documents without list items: digits, hyphens, emphasis, a `+` — but no list marker
+example : GM.Props.Blocks.QuotePrefixSimulation
+    (strBytes "In 1986 a well-known *fact*:\n> 2+2=4 (see p.12a)\n\n    code-1\n___\n# 3rd") :=
+  quote_prefix_simulation_noitems (by decide +kernel)
+example : ¬ C08ClassL (strBytes "a - b\n") := by decide +kernel
+example : ¬ C08ClassL (strBytes "---\n") := by decide +kernel
 -- the class excludes list markers and a missing final line feed
 example : ¬ C08Class (strBytes "- a\n") := by decide +kernel
 example : ¬ C08Class (strBytes "a") := by decide +kernel
